@@ -231,6 +231,10 @@ func (fc *FnCtx) assignKey(st *State, key string, t types.Type, v Val) {
 	if v.S == SNil {
 		v = zeroVal(fc, st, sortOf(t), t)
 	}
+	if t != nil && isErrorType(t) && v.S != SInt {
+		// a concrete error value (e.g. &ComparisonError{}) stored in an error: non-nil
+		v = fc.newErr(st)
+	}
 	if t != nil {
 		// keep dynamic type of interface-held records
 		if _, isIface := t.Underlying().(*types.Interface); !(isIface && v.S == SRec && v.GT != nil) || isErrorType(t) {
